@@ -63,6 +63,8 @@ pub struct ExecStats {
     pub short_reads: u64,
     pub eintr_reads: u64,
     pub clock_jumps: u64,
+    /// operations on a dependency's process-wide atomics (pest's call limit / error detail), each a scheduling point
+    pub dep_atomic_ops: u64,
     /// hash of the (task, site) sequence of all scheduling points taken through the shim
     pub interleaving_sig: u64,
 }
@@ -194,6 +196,78 @@ pub fn probe(site: &'static str) {
         });
         sig(idx.unwrap_or(99) as u64 + 1);
         shuttle::thread::sleep(std::time::Duration::from_secs(0));
+    }
+}
+
+/// Seam for process-wide state inside *dependencies* (today: pest's two global knobs, `set_call_limit` and
+/// `set_error_detail`). The generated tree builds such a dependency from a copy of its registry source in which
+/// `core::sync::atomic` is replaced by this module: plain atomics whose every operation is a scheduling point
+/// while a simulated execution is running, and nothing else outside one (the same crate also runs inside
+/// proc-macros at build time).
+pub mod dep {
+    pub mod atomic {
+        pub use core::sync::atomic::Ordering;
+        use core::sync::atomic as real;
+
+        fn sp() {
+            let active = crate::STATE.try_with(|s| s.try_borrow().map(|s| s.active).unwrap_or(false)).unwrap_or(false);
+            if active && !std::thread::panicking() {
+                crate::STATE.with(|s| s.borrow_mut().stats.dep_atomic_ops += 1);
+                shuttle::thread::sleep(std::time::Duration::from_secs(0));
+            }
+        }
+
+        macro_rules! dep_atomic {
+            ($name:ident, $t:ty) => {
+                #[derive(Debug, Default)]
+                pub struct $name(real::$name);
+                impl $name {
+                    pub const fn new(v: $t) -> Self {
+                        Self(real::$name::new(v))
+                    }
+                    pub fn load(&self, o: Ordering) -> $t {
+                        sp();
+                        self.0.load(o)
+                    }
+                    pub fn store(&self, v: $t, o: Ordering) {
+                        sp();
+                        self.0.store(v, o)
+                    }
+                    pub fn swap(&self, v: $t, o: Ordering) -> $t {
+                        sp();
+                        self.0.swap(v, o)
+                    }
+                    pub fn compare_exchange(&self, c: $t, n: $t, s: Ordering, f: Ordering) -> Result<$t, $t> {
+                        sp();
+                        self.0.compare_exchange(c, n, s, f)
+                    }
+                    pub fn compare_exchange_weak(&self, c: $t, n: $t, s: Ordering, f: Ordering) -> Result<$t, $t> {
+                        sp();
+                        self.0.compare_exchange(c, n, s, f)
+                    }
+                    pub fn get_mut(&mut self) -> &mut $t {
+                        self.0.get_mut()
+                    }
+                    pub fn into_inner(self) -> $t {
+                        self.0.into_inner()
+                    }
+                }
+            };
+        }
+        dep_atomic!(AtomicUsize, usize);
+        dep_atomic!(AtomicBool, bool);
+        dep_atomic!(AtomicU32, u32);
+        dep_atomic!(AtomicU64, u64);
+        impl AtomicUsize {
+            pub fn fetch_add(&self, v: usize, o: Ordering) -> usize {
+                sp();
+                self.0.fetch_add(v, o)
+            }
+            pub fn fetch_sub(&self, v: usize, o: Ordering) -> usize {
+                sp();
+                self.0.fetch_sub(v, o)
+            }
+        }
     }
 }
 
